@@ -584,6 +584,9 @@ class HealpixLandscape(StokesLandscape):
         Returns:
             int: HEALPix map index for ring ordering scheme.
         """
+        # the remainder of a tiny negative longitude can round up to 2π, which is longitude 0
+        phi = jnp.mod(phi, 2 * jnp.pi)
+        phi = jnp.where(phi >= 2 * jnp.pi, 0.0, phi)
         return (jhp.ang2pix(self.nside, theta, phi),)
 
 
